@@ -105,6 +105,17 @@ pub fn run(reg: &dyn Registry, ctx: &Ctx) -> Outcome {
                 ctx.violation(&format!("C07:{}:api-zero-state", info.name), &format!("{}: from_rng over a source with {} leading all-zero blocks is in the all-zero state, the fixed point outside the cycle", info.name, z), json!({"kind":"note","zero_blocks":z}));
                 break;
             }
+            // and the fallible route
+            let mut script = vec![0u8; z * info.seed_len];
+            script.extend(std::iter::repeat(0x5Au8).take(2 * info.seed_len));
+            let mut fs = crate::subject::FallibleSource::new(script, None, crate::subject::FaultMode::Untouched, 1);
+            ctx.add("api_seeds_checked_nonzero_state", 1);
+            if let Ok(Ok(g)) = crate::ops::guarded(|| ty.try_from_rng(&mut fs)) {
+                if g.ser().as_deref() == Some(&zero_img[..]) {
+                    ctx.violation(&format!("C07:{}:api-zero-state", info.name), &format!("{}: try_from_rng over a source with {} leading all-zero blocks is in the all-zero state, the fixed point outside the cycle", info.name, z), json!({"kind":"note","zero_blocks":z,"route":"try_from_rng"}));
+                    break;
+                }
+            }
         }
         for x in crate::alphabet::u64_alphabet() {
             ctx.add("api_seeds_checked_nonzero_state", 1);
